@@ -81,8 +81,15 @@ THEOREMS = [
     "Jinns.Domain.batches_any_epoch_size",
     "Jinns.Domain.statio_rar_history",
     "Jinns.Domain.ode_rar_history",
+    "Jinns.Domain.statio_stores_holds",
+    "Jinns.Domain.statio_trace_holds",
+    "Jinns.Domain.statio_history_holds",
+    "Jinns.Domain.statio_rar_history_holds",
+    "Jinns.Domain.nonstatio_trace_holds",
+    "Jinns.Domain.nonstatio_history_holds",
+    "Jinns.Domain.nonstatio_rar_history_holds",
 ]
-LEAN_MODULES = ["JinnsProofs.C08"]
+LEAN_MODULES = ["JinnsProofs.C08", "JinnsProofs.C08Holds"]
 RULE = ("cases = (generator kind, method, dtype, domain, counts, batch sizes, number of get_batch calls) or constructor "
         "arguments that must be rejected; observed: the stores after construction and every batch (exact rationals), "
         "the permutation applied by every reshuffle; non-trivial = a well-formed case with a non-degenerate domain "
